@@ -1,7 +1,7 @@
 (* C06 -- helpers for the correspondence check: compare what the real matcher returned on a case with
    the model (under each of the four settings of the merge flags), with the model's output nodes, and
    check the sigma found by the independent spec evaluation with `instanceb`.  No proofs. *)
-From Coq Require Import List ZArith String Bool Arith.
+From Coq Require Import List ZArith NArith String Bool Arith.
 Require Import OV.Match.Pattern OV.Match.Matcher OV.Match.Spec.
 Import ListNotations.
 
@@ -46,17 +46,23 @@ Definition agrees (fl : flags) (c : case) : bool :=
   | _, _ => false
   end.
 
-Definition b2n (b : bool) (w : nat) : nat := if b then w else 0.
+Definition b2n (b : bool) (w : N) : N := if b then w else 0%N.
 
-(* bit k (k = 4*out_fail + 2*keep_vb + keep_nb) is set when the model under that setting of the flags agrees
-   with the observation; 1 = as pinned, 128 = all three repaired *)
-Definition mask (c : case) : nat :=
+(* bit k (k = 8*fresh_iter + 4*out_fail + 2*keep_vb + keep_nb) is set when the model under that setting of the flags
+   agrees with the observation; bit 0 = as pinned, bit 15 = all repaired *)
+Definition flag_settings : list flags :=
+  flat_map (fun fi => flat_map (fun o => flat_map (fun v => map (fun n => mkF v n o fi) [false; true]) [false; true])
+                               [false; true]) [false; true].
+
+Fixpoint mask_from (c : case) (fls : list flags) (w : N) : N :=
+  match fls with
+  | [] => 0%N
+  | fl :: t => (b2n (agrees fl c) w + mask_from c t (2 * w))%N
+  end.
+
+Definition mask (c : case) : N :=
   (* the two extreme settings first: when both explain the observation the intermediate ones are not evaluated *)
-  if agrees flags_as_pinned c && agrees flags_fixed c then 255 else
-  b2n (agrees (mkF false false false) c) 1 + b2n (agrees (mkF false true false) c) 2 +
-  b2n (agrees (mkF true false false) c) 4 + b2n (agrees (mkF true true false) c) 8 +
-  b2n (agrees (mkF false false true) c) 16 + b2n (agrees (mkF false true true) c) 32 +
-  b2n (agrees (mkF true false true) c) 64 + b2n (agrees (mkF true true true) c) 128.
+  if agrees flags_as_pinned c && agrees flags_fixed c then 65535%N else mask_from c flag_settings 1%N.
 
 Definition roots_ok (c : case) : bool := list_eqb Nat.eqb (output_nodes (c_p c)) (c_roots c).
 
@@ -78,11 +84,11 @@ Definition sigma_ok (c : case) : bool :=
   | _, _ => true
   end.
 
-Definition code (c : case) : nat :=
-  mask c + b2n (negb (roots_ok c)) 256 + b2n (negb (sigma_ok c)) 512.
+Definition code (c : case) : N :=
+  (mask c + b2n (negb (roots_ok c)) 65536 + b2n (negb (sigma_ok c)) 131072)%N.
 
-Fixpoint report (i : nat) (cs : list case) : list (nat * nat) :=
+Fixpoint report (i : nat) (cs : list case) : list (nat * N) :=
   match cs with
   | [] => []
-  | c :: t => let k := code c in (if Nat.eqb k 255 then [] else [(i, k)]) ++ report (S i) t
+  | c :: t => let k := code c in (if N.eqb k 65535 then [] else [(i, k)]) ++ report (S i) t
   end.
